@@ -66,6 +66,13 @@ impl AcbWriter for CsvWriter {
         name: &str,
         table_model: &crate::portfolio::render::RenderTable,
     ) -> Result<(), super::model::Error> {
+        // The CSV holds the table only. Errors (eg. why a security's transactions
+        // could not be fully processed) must still reach the user, like they do in
+        // the text output.
+        for err in &table_model.errors {
+            eprintln!("[!] {}: {}", name, err);
+        }
+
         let writer = self.get_writer(out_type, name)?;
         let mut csv_w =
             csv::WriterBuilder::new().has_headers(true).from_writer(writer);
